@@ -132,7 +132,24 @@ def _make_opt(name, marker, ss, ds):
     return _bind(type(name, bases, ns))
 
 
-def opt_class(marker, ss, ds, seen, fs='no'):
+def opt_class(marker, ss, ds, seen, fs='no', sub=False):
+    """`sub`: a subclass that INHERITS its remote-aware __getstate__ (class Duckling(Duck): pass)."""
+    if sub:
+        key = (marker, ss, ds, bool(seen or marker), fs, 'sub')
+        c = _OPT_CACHE.get(key)
+        if c is None:
+            base = opt_class(marker, ss, ds, seen, fs)
+            c = _bind(type(base.__name__ + '_sub', (base,), {}))
+            if key[3] and not marker:
+                x = object.__new__(c)
+                x.val, x.w = 'v0', 'w0'
+                _rp().dumps(x)          # "pickled remotely earlier in this process"
+            _OPT_CACHE[key] = c
+        return c
+    return _opt_class(marker, ss, ds, seen, fs)
+
+
+def _opt_class(marker, ss, ds, seen, fs='no'):
     """One class per feature combination.  `seen` classes have been dumped remotely before (so they sit
     in supported_classes); an un-`seen` duck-typed class is never dumped remotely through this handle."""
     key = (marker, ss, ds, bool(seen or marker), fs)
@@ -160,6 +177,7 @@ class PlainGS(Plain):
         return dict(self.__dict__)
 
     def __setstate__(self, st):
+        _event(('pss', st.get('val')))          # a point at which another thread's load can be nested
         self.__dict__.update(st)
 
 
@@ -217,7 +235,7 @@ def build_graph(scn):
     objs, kinds = [None] * (n + 1), [None] * (n + 1)
     for i, nd in enumerate(g, 1):
         if nd['kind'] == 'opt':
-            cls = opt_class(scn['marker'], nd['ss'], nd['ds'], seen, nd.get('fs', 'no'))
+            cls = opt_class(scn['marker'], nd['ss'], nd['ds'], seen, nd.get('fs', 'no'), sub=scn.get('ovar') == 'sub')
             o = object.__new__(cls)
             o.val, o.w = 'v%d' % i, 'w%d' % i
             objs[i], kinds[i] = o, cls
@@ -476,27 +494,31 @@ def _one_load(rp, data, L, scn, kinds, nest=None):
     seen = [0]
     if nest is not None:
         def hook(ev):
-            if ev[0] == 'ss' or ev == ('new', 'opt'):
+            if ev[0] in ('ss', 'pss') or ev == ('new', 'opt'):
                 seen[0] += 1
                 if seen[0] == nest[0]:
                     nest[1]()
         _CTL.hook = hook
     start = len(LOG)
+    mine_p, pristine = patch_dict(paths), patch_dict(paths)      # the caller's dictionary and what it must still be afterwards
+
+    def pres():
+        return 'T' if mine_p == pristine else 'F'
     try:
         try:
-            top = rp.loads(data, patch_dict(paths)) if paths else rp.loads(data)
+            top = rp.loads(data, mine_p) if paths else rp.loads(data)
         finally:
             _CTL.raise_at = None
             _CTL.hook = None
             mine = [ev for ev in LOG[start:]] if nest is None else None
     except BaseException as e:  # noqa
         if noclass and isinstance(e, (ImportError, AttributeError)):
-            return {'outcome': 'raised:injected', 'top': 'none', 'nodes': [], 'ss': []}
-        return {'outcome': _outcome(e, truncated), 'top': 'none', 'nodes': [], 'ss': []}
+            return {'outcome': 'raised:injected', 'top': 'none', 'nodes': [], 'ss': [], 'pres': pres()}
+        return {'outcome': _outcome(e, truncated), 'top': 'none', 'nodes': [], 'ss': [], 'pres': pres()}
     if noclass:
-        return {'outcome': 'ok', 'top': '?:loaded a stream naming a missing class', 'nodes': [], 'ss': []}
+        return {'outcome': 'ok', 'top': '?:loaded a stream naming a missing class', 'nodes': [], 'ss': [], 'pres': pres()}
     toptok, nodes = project(top, scn, kinds, paths)
-    return {'outcome': 'ok', 'top': toptok, 'nodes': nodes, '_log': mine}
+    return {'outcome': 'ok', 'top': toptok, 'nodes': nodes, '_log': mine, 'pres': pres()}
 
 
 def _ss_counts(log, nodes, n):
@@ -545,7 +567,7 @@ def run_graph(scn, nest_at=None):
                 obs['equal_to_pickle'] = 'F'
             except BaseException:  # noqa
                 obs['equal_to_pickle'] = 'T'
-        bad = {'outcome': 'nodump', 'top': 'none', 'nodes': [], 'ss': []}
+        bad = {'outcome': 'nodump', 'top': 'none', 'nodes': [], 'ss': [], 'pres': 'T'}
         obs['loads'] = [bad for _ in loads]
         obs['fresh'] = [bad for _ in loads]
         return obs
@@ -555,9 +577,9 @@ def run_graph(scn, nest_at=None):
             try:
                 t = copied if op == 'deepcopy' else pickle.loads(data)
             except BaseException as e:  # noqa
-                return {'outcome': _outcome(e), 'top': 'none', 'nodes': [], 'ss': []}
+                return {'outcome': _outcome(e), 'top': 'none', 'nodes': [], 'ss': [], 'pres': 'T'}
             toptok, nodes = project(t, scn, kinds)
-            return {'outcome': 'ok', 'top': toptok, 'nodes': nodes, 'ss': _ss_counts(LOG[s0:], nodes, n)}
+            return {'outcome': 'ok', 'top': toptok, 'nodes': nodes, 'ss': _ss_counts(LOG[s0:], nodes, n), 'pres': 'T'}
         r = std()
         if op == 'deepcopy':
             r['ss'] = _ss_counts(LOG[start:], r['nodes'], n) if r['outcome'] == 'ok' else []
@@ -620,19 +642,19 @@ def run_graph(scn, nest_at=None):
                        for i in range(n)]
         obs['fresh'].append(r)
     # the oracle named by C13: pickle itself
-    L0 = loads[-1]                       # the last call of the sequence (earlier ones may have failed)
-    if not L0['patch'] and L0['fail'] == 'none':
+    # the oracle named by C13: pickle itself; every call without patches and without injected failure must equal it
+    plain = [k for k, L in enumerate(loads) if not L['patch'] and L['fail'] == 'none']
+    if plain and plain[-1] == len(loads) - 1:
         try:
             t = pickle.loads(pickle.dumps(top, protocol=proto))
-            std = project(t, scn, kinds)
-            std = ('ok',) + std
+            std = ('ok',) + project(t, scn, kinds)
         except BaseException as e:  # noqa
             std = ('raised',)
-        mine = obs['loads'][-1]
-        if mine['outcome'] == 'ok':
-            obs['equal_to_pickle'] = 'T' if std == ('ok', mine['top'], mine['nodes']) else 'F'
-        else:
-            obs['equal_to_pickle'] = 'T' if std == ('raised',) else 'F'
+        eq = True
+        for k in plain:
+            mine = obs['loads'][k]
+            eq = eq and (std == ('ok', mine['top'], mine['nodes']) if mine['outcome'] == 'ok' else std == ('raised',))
+        obs['equal_to_pickle'] = 'T' if eq else 'F'
     obs['_stream'] = data
     return obs
 
